@@ -336,3 +336,27 @@ def crash_sig(info):
     if info.get("timed_out"):
         return "timeout"
     return info.get("sig") or san_signature(info.get("stderr", "")) or "abnormal-exit rc=%s" % info.get("rc")
+
+
+def memcheck(binary, args, stdin=None, timeout=7200):
+    """runs an uninstrumented harness under valgrind memcheck; returns (run_proc result, [(kind, first qxmpp frame, text block)])"""
+    import re
+    cmd = ["valgrind", "--tool=memcheck", "--error-exitcode=99", "--leak-check=no", "--num-callers=30", "--track-origins=yes", "--error-limit=no", binary] + [str(a) for a in args]
+    env = dict(os.environ)
+    env.pop("ASAN_OPTIONS", None)
+    try:
+        p = subprocess.run(cmd, input=stdin, capture_output=True, text=True, timeout=timeout, env=env)
+        r = {"rc": p.returncode, "out": p.stdout, "err": p.stderr, "timed_out": False}
+    except subprocess.TimeoutExpired as e:
+        r = {"rc": -1, "out": (e.stdout or b"").decode("utf8", "replace") if isinstance(e.stdout, bytes) else (e.stdout or ""), "err": "", "timed_out": True}
+    errors = []
+    blocks = re.split(r"\n==\d+== \n", r["err"])
+    for b in blocks:
+        m = re.search(r"==\d+== (Conditional jump or move depends on uninitialised value|Use of uninitialised value of size \d+|Invalid (?:read|write) of size \d+|Syscall param [^\n]*uninitialised[^\n]*|Invalid free[^\n]*|Mismatched free[^\n]*|Source and destination overlap[^\n]*|Jump to the invalid address[^\n]*)", b)
+        if not m:
+            continue
+        frames = re.findall(r"(?:at|by) 0x[0-9A-F]+: (.+?) \((?:in )?([^)]*)\)", b)
+        first = next((f for f, where in frames if "/repo/" in where or "QXmpp" in f), frames[0][0] if frames else "?")
+        first = re.sub(r"\(.*", "", first)
+        errors.append((re.sub(r"\d+", "N", m.group(1)), first, b[-3000:]))
+    return r, errors
